@@ -119,7 +119,10 @@ class Renderer(object):
             if self.layout and self.rng.random() < 0.3:
                 # the closing delimiter does not have to be aligned with the opening one (only the opening column matters)
                 cind = " " * self.rng.choice([0, 1, 4, 8, 12])
-            self.raw(cind + q)
+            tail = ""
+            if self.layout and self.rng.random() < 0.15:
+                tail = self.rng.choice(["  # end", " .", "yaml", '"'])        # text behind the closing delimiter is tolerated
+            self.raw(cind + q + tail)
         if st.get("table") is not None:
             self.table(st["table"], key + ("table",), indent + 2)
 
@@ -138,6 +141,11 @@ class Renderer(object):
         for ri, row in enumerate(rows):
             if self.layout:
                 self.noise_in_step()
+            elif ri >= 1 and len(rows) >= 3:
+                import zlib
+                if zlib.crc32(("|".join(row) + str(ri)).encode("utf-8")) % 5 == 0:
+                    # a disabled row / a blank line between the rows of a table (deterministic: no generator state is used here)
+                    self.out.append((" " * indent + "# | disabled | row |") if ri % 2 else "")
             cells = []
             for ci, c in enumerate(row):
                 c = esc_cell(c)
